@@ -145,6 +145,10 @@ class Gen:
 
     def n_call(self, depth):
         s = self.site('F')
+        if self.r.random() < 0.6:
+            # REQUEST.set(...) and the like: a mapping that sits on the
+            # namespace gains or loses a key
+            self.script[s] = {'tok': s, 'grow': self.r.choice([1, 1, -1])}
         return {'k': 'call', 'c': {'site': s, 'how': self.r.choice(
             ['name', 'expr', 'call'])}}
 
@@ -169,7 +173,7 @@ class Gen:
     def n_sub(self, depth):
         r = self.r
         how = r.choice(['var', 'var', 'var', 'kw', 'client', 'call', 'if',
-                        'clients2', 'clients0'])
+                        'clients2', 'clients0', 'clientstr', 'clientsmix'])
         if self.subs and (len(self.subs) >= 2 or r.random() < 0.4):
             return {'k': 'sub', 'name': r.choice(sorted(self.subs)),
                     'how': how}
@@ -323,6 +327,8 @@ class Gen:
         elif mapping:
             self.script[w] = {'map': {} if r.random() < 0.25 else {'wv': 'w'},
                               'fallback': True}
+            if r.random() < 0.1:
+                self.script[w]['vlen'] = r.choice([[0, 1], [1, 0], [0, 0, 2]])
         else:
             self.script[w] = {'obj': {'wv': 'w'}, 'fallback': True}
         node = {'k': 'with', 'src': {'site': w, 'how': r.choice(
@@ -622,7 +628,8 @@ def execute(case, prep, plan):
     try:
         if mode == 'sub':
             md0 = TemplateDict()
-            md0._push({'pre1': 1})
+            env.shared_map = {'pre1': 1}
+            md0._push(env.shared_map)
             md0._push({'pre2': 2})
             md0.guarded_getattr = None
             md0.guarded_getitem = None
@@ -636,7 +643,8 @@ def execute(case, prep, plan):
             before = (list(md0._data), md0.level)
             res = prep['top'](None, md0, **kw)
         else:
-            res = prep['top'](None, {'pre1': 1}, **kw)
+            env.shared_map = {'pre1': 1}
+            res = prep['top'](None, env.shared_map, **kw)
         outcome = ('ok', res if isinstance(res, str) else repr(res))
     except BaseException as e:
         outcome = ('exc', type(e).__name__)
